@@ -330,13 +330,24 @@ func c09ProbeDump(ctx *app.RequestContext) string {
 type c09srv struct {
 	probe string
 	prog  []string
+	// progs: the operations of the i-th mutating request of the history (prog = progs[0] when unset)
+	progs [][]string
+	nreq  int
 }
 
 func (s *c09srv) engine() *routeEngine {
 	e := newRunningEngine(func(o *config.Options) { o.NoDefaultDate = true }) // the Date value is wall-clock
 	e.Use(recoveryMW())
-	e.GET("/mut/:p", func(c context.Context, ctx *app.RequestContext) {
-		for _, op := range s.prog {
+	e.Any("/mut/:p", func(c context.Context, ctx *app.RequestContext) {
+		prog := s.prog
+		if s.progs != nil {
+			prog = nil
+			if s.nreq < len(s.progs) {
+				prog = s.progs[s.nreq]
+			}
+			s.nreq++
+		}
+		for _, op := range prog {
 			parts := strings.SplitN(op, ":", 3)
 			var seed int
 			fmt.Sscanf(parts[2], "%d", &seed)
@@ -369,22 +380,44 @@ func (s *c09srv) engine() *routeEngine {
 const c09MutReq = "GET /mut/x?a=1 HTTP/1.1\r\nHost: h\r\nX-K: v\r\nCookie: c=d\r\n\r\n"
 const c09ProbeReq = "GET /probe HTTP/1.1\r\nHost: h\r\n\r\n"
 
+// request shapes of a history: they leave the pooled Request in different body states (no body, body buffer
+// from the chunked reader, zero-copy raw body of a fixed-length request, explicit zero length)
+var c09Shapes = map[string]string{
+	"get":     c09MutReq,
+	"chunked": "POST /mut/x HTTP/1.1\r\nHost: h\r\nTransfer-Encoding: chunked\r\n\r\n5\r\nhello\r\n0\r\n\r\n",
+	"cl":      "POST /mut/x HTTP/1.1\r\nHost: h\r\nContent-Type: text/plain\r\nContent-Length: 16\r\n\r\nbody-of-request!",
+	"cl0":     "POST /mut/x HTTP/1.1\r\nHost: h\r\nContent-Length: 0\r\n\r\n",
+	"form":    "POST /mut/x HTTP/1.1\r\nHost: h\r\nContent-Type: application/x-www-form-urlencoded\r\nContent-Length: 7\r\n\r\nf=1&g=2",
+}
+
 func init() {
 	register(&Unit{Name: "c09.server", Props: []string{"C09"}, ShrinkOps: true,
 		// in: ops "target:Method:seed"
 		Check: func(t *T, in In) []Finding {
-			var prog []string
+			// "NEXT:<shape>:0" starts the next mutating request of the history; the first one is a GET
+			progs := [][]string{nil}
+			wire := c09MutReq
 			for i := range in {
-				prog = append(prog, in.S(i))
+				if strings.HasPrefix(in.S(i), "NEXT:") {
+					shape := strings.Split(in.S(i), ":")[1]
+					if len(progs) == 1 && len(progs[0]) == 0 && i == 0 {
+						wire = c09Shapes[shape] // a leading NEXT only chooses the shape of the first request
+					} else {
+						wire += c09Shapes[shape]
+						progs = append(progs, nil)
+					}
+					continue
+				}
+				progs[len(progs)-1] = append(progs[len(progs)-1], in.S(i))
 			}
 			// baseline: fresh engine, fresh connection, probe only
 			base := &c09srv{}
 			serveScript(base.engine(), newScriptConn([][]byte{[]byte(c09ProbeReq)}))
 			var fs []Finding
 			// keep-alive: mutate then probe on the same connection
-			ka := &c09srv{prog: prog}
+			ka := &c09srv{progs: progs}
 			e := ka.engine()
-			serveScript(e, newScriptConn([][]byte{[]byte(c09MutReq + c09ProbeReq)}))
+			serveScript(e, newScriptConn([][]byte{[]byte(wire + c09ProbeReq)}))
 			if ka.probe != "" && ka.probe != base.probe {
 				fs = append(fs, Finding{Kind: "oracle", Unit: "c09.server", Class: "probe-differs-on-keepalive-connection", Impl: ka.probe, Expect: base.probe, Note: c09FirstDiff(ka.probe, base.probe)})
 			}
@@ -412,9 +445,38 @@ func init() {
 			for _, m := range all {
 				t.Do(In{S(m + ":1")}, true)
 			}
+			// histories of request shapes alone (read-only handlers): every sequence of up to three
+			shapes := []string{"get", "chunked", "cl", "cl0", "form"}
+			for _, a := range shapes {
+				t.Do(In{S("NEXT:" + a + ":0")}, true)
+				for _, b := range shapes {
+					t.Do(In{S("NEXT:" + a + ":0"), S("NEXT:" + b + ":0")}, true)
+					for _, c := range shapes {
+						t.Do(In{S("NEXT:" + a + ":0"), S("NEXT:" + b + ":0"), S("NEXT:" + c + ":0")}, true)
+					}
+				}
+			}
+			// pairs of body operations in consecutive requests (a kept body buffer, then a raw body, ...)
+			var bodyOps []string
+			for _, m := range all {
+				if strings.Contains(m, "Body") && (strings.HasPrefix(m, "req:") || strings.HasPrefix(m, "resp:")) {
+					bodyOps = append(bodyOps, m)
+				}
+			}
+			for _, a := range bodyOps {
+				for _, b := range bodyOps {
+					if strings.Split(a, ":")[0] == strings.Split(b, ":")[0] {
+						t.Do(In{S(a + ":3"), S("NEXT:get:0"), S(b + ":4")}, true)
+					}
+				}
+			}
 			for i := 0; i < t.Scale(400, 8000); i++ {
 				var in In
 				for j, n := 0, 1+t.R.Intn(6); j < n; j++ {
+					if t.R.Intn(5) == 0 {
+						in = append(in, S("NEXT:"+shapes[t.R.Intn(len(shapes))]+":0"))
+						continue
+					}
 					in = append(in, S(fmt.Sprintf("%s:%d", all[t.R.Intn(len(all))], t.R.Intn(50))))
 				}
 				t.Do(in, true)
